@@ -234,7 +234,10 @@ namespace ratio
     EXECUTOR_EXPORT void executor::failure(const std::unordered_set<atom *> &atoms)
     {
         for (const auto &atm : atoms)
+        {
             cnfl.push_back(lit(atm->get_sigma(), false));
+            started_atms.erase(atm); // the client gave up on this atom: it is no more under execution..
+        }
         // we backtrack to a level at which we can analyze the conflict..
         if (!backtrack_analyze_and_backjump() || !slv.solve() || xi_violated)
             throw execution_exception();
@@ -243,12 +246,29 @@ namespace ratio
     bool executor::propagate(const smt::lit &p) noexcept
     {
         if (p == xi)
-        { // we propagate the active bounds..
+        { // the atoms which have been dispatched must still be in the plan..
+            for (const auto &atm : started_atms)
+                if (slv.get_sat_core().value(atm->get_sigma()) == False)
+                {
+                    cnfl.push_back(lit(atm->get_sigma()));
+                    cnfl.push_back(!xi);
+                    return false;
+                }
+            // we propagate the active bounds..
             for (const auto &adapt : adaptations)
                 if (slv.get_sat_core().value(adapt.second.sigma_xi) == True)
                     for (const auto &bnds : adapt.second.bounds)
                         if (!propagate_bounds(*bnds.first, *bnds.second, adapt.second.sigma_xi))
                             return false;
+        }
+        else if (slv.get_sat_core().value(variable(p)) == False)
+        { // an atom has been removed from the plan (e.g., it has been unified with another one): this cannot happen to an atom which has already been dispatched..
+            if (slv.get_sat_core().value(xi) == True && started_atms.count(all_atoms.at(variable(p))))
+            {
+                cnfl.push_back(lit(variable(p)));
+                cnfl.push_back(!xi);
+                return false;
+            }
         }
         else if (slv.get_sat_core().value(variable(p)) == True)
         { // an atom has been activated..
